@@ -429,6 +429,7 @@ def run(prog, tier, extra=None):
     R8 = res.rule("C09.no-field-skipped", "a decoder returns Ok only after each optional/trailing field was decoded or its own presence test said there is nothing to read", floor=1)
     R9 = res.rule("C09.read-before-decode", "a decoder's decisions do not read a field of the value under construction before that field was assigned from the input", floor=0)
     R7 = res.rule("C09.inline-variants", "Message variants encoded inline (tuple fields concatenated in the match arm) are read back at the offsets they are written", floor=4)
+    R10 = res.rule("C09.dispatch-guards", "a length guard in a Message::deserialize arm does not refuse the shortest encoding the payload's writer produces", floor=1)
     R3 = res.rule("C09.tags", "Message tags are injective and each decode arm constructs the variant carrying that tag", floor=28)
     cd = Codec(prog)
     summary = {}
@@ -696,6 +697,9 @@ def run(prog, tier, extra=None):
 
     # tags
     gv = prog.body(CORE + "msg::message::Message::get_type_value")
+    from .. import gate as _g10
+    from ..linear import Linearizer as _Lz10
+    from ..expr import walk as _wk10
     de = prog.body(CORE + "msg::message::Message::deserialize")
     if gv is None or de is None:
         raise LookupError("Message::get_type_value / deserialize not found")
@@ -746,6 +750,47 @@ def run(prog, tier, extra=None):
                     if st[0] == "=" and st[2][0] == "agg" and st[2][1][0] == "adt" and st[2][1][1] == CORE + "msg::message::Message":
                         made.add(st[2][1][2])
                 stack.extend(de.succ(x))
+            # R10: length guards of this arm against the shortest thing the payload's writer can produce
+            arm_calls = [(x, de.term(x)) for x in sorted(seen) if de.term(x)["k"] == "call"]
+            payload = None
+            for x, ct in arm_calls:
+                cn = ct.get("res") or ct.get("callee") or ""
+                if cn.startswith("saito_core") or cn.startswith("<saito_core"):
+                    last = cn.rsplit("::", 1)[-1]
+                    if last.startswith("deserialize"):
+                        payload = cn
+                        break
+            if payload is not None:
+                wpath = payload[: -len(payload.rsplit("::", 1)[-1])] + payload.rsplit("::", 1)[-1].replace("deserialize_from_net", "serialize_for_net").replace("deserialize", "serialize")
+                wb = prog.bodies.get(wpath)
+                segs10 = cd.writer_table(wb) if wb is not None else None
+                if segs10:
+                    wmin = 0
+                    for f_, wd_ in segs10:
+                        if wd_ is None:
+                            break
+                        wmin += wd_
+                    chd = Chaser(de)
+                    lzd = _Lz10(de, chd, prog)
+                    makers = {x for x in seen if any(st[0] == "=" and st[2][0] == "agg" and st[2][1][0] == "adt" and st[2][1][1] == CORE + "msg::message::Message" for st in de.stmts(x))}
+                    for c in _g10.order_edges(de, chd, lambda a, b_: any(y[0] == "len" for y in _wk10(a)) and not any(y[0] == "len" for y in _wk10(b_))):
+                        if c["bb"] not in seen:
+                            continue
+                        k10 = lzd.lin(c["b"])
+                        if k10 is None or not k10.is_const():
+                            continue
+                        K = int(k10.c)
+                        res.instance(R10)
+                        holds = {"Lt": wmin < K, "Le": wmin <= K, "Gt": wmin > K, "Ge": wmin >= K}[c["op"]]
+                        taken = c["true_edges"] if holds else c["false_edges"]
+                        # the edge the shortest encoding takes must still be able to build the message
+                        dead = [e_ for e_ in taken if not (de.reachable(e_[1]) & makers or e_[1] in makers)]
+                        if taken and len(dead) == len(taken):
+                            res.add(Finding(R10, "C09.dispatch-guards|%d" % v, "Message::deserialize refuses a tag-%d message whose body is %d bytes long (`len %s %d`), but that is the shortest body "
+                                            "%s produces (fixed part, every count zero): the empty value does not survive the round trip"
+                                            % (v, wmin, {"Lt": "<", "Le": "<=", "Gt": ">", "Ge": ">="}[c["op"]], K, wpath.replace(CORE, "")), de.loc(c["bb"])))
+                        else:
+                            res.sample({"rule": R10, "tag": v, "guard": "len %s %d" % (c["op"], K), "shortest_encoding": wmin, "verdict": "accepted"})
             res.instance(R3)
             want = inv.get(v)
             if want is None:
